@@ -789,7 +789,7 @@ def gen_fused(rng, flags):
 
 def gen_draw_probe(rng):
     """a seeded transform-wrapper family over the recording transform: the raw draws of every index are observable"""
-    wrapper = rng.choice(["xtw", "xtw", "xtw", "xtw", "mv", "mv", "semseg"])
+    wrapper = rng.choice(["xtw", "xtw", "xtw", "mv", "mv", "mv", "semseg"])
     n = rng.choice([6, 7, 8, 10])
     T = H.t_img("tensor", 3, 8, 8)
     data = {"T": T, "seed": rng.randrange(10 ** 6), "const": rng.random() < 0.5}
@@ -806,9 +806,12 @@ def gen_draw_probe(rng):
         layers.append({"w": "xtw", "item": item, "tree": tree, "seed": gen_seed(rng), "in": T})
         mode = item
     elif wrapper == "mv":
-        cfgs = [{"form": rng.choice(MV_FORMS_TREE), "n": rng.choice([1, 2]), "tree": tree}]
+        # one, two or three configs that all hold the recording transform: the draws of ANY view of index i are compared with
+        # the draws of ANY view of every other index (within one index the configs may legitimately share a generator)
+        k = rng.choice([1, 2, 2, 3])
+        cfgs = [{"form": rng.choice(MV_FORMS_TREE), "n": rng.choice([1, 2]), "tree": dict(tree, t=rng.choice(["rec", "rec", "rec_compose"]))} for _ in range(k)]
         if rng.random() < 0.4:
-            cfgs.insert(rng.randrange(2), {"form": rng.choice(MV_FORMS_PLAIN), "n": 1, "tree": None})
+            cfgs.insert(rng.randrange(len(cfgs) + 1), {"form": rng.choice(MV_FORMS_PLAIN), "n": 1, "tree": None})
         layers.append({"w": "mv", "configs": cfgs, "seed": gen_seed(rng), "in": T})
     else:
         Ts = H.t_semseg("tensor", 8, 8, ncls=5)
